@@ -195,6 +195,10 @@ func (ex *Exec) callModular(fi *FuncInfo, recv *Value, args []Value, st *State, 
 	}
 	pre := st.clone()
 	site := fi.Short
+	// named entry values of the callee's contract
+	for _, e := range con.Entries {
+		bind[e.Name] = ex.evalClauseIn(e, pre, pre, bind)
+	}
 	for i, c := range con.Requires {
 		g := ex.evalClause(c, st, pre, bind)
 		ex.check(st, g, "requires", call, fmt.Sprintf("call:%s/requires#%d", site, i))
@@ -1103,8 +1107,20 @@ func (ex *Exec) checkCallSite(call *ast.CallExpr, st *State) {
 		}
 		return true
 	})
-	for k, c := range f.fn.Con.CallSites[fmt.Sprintf("%s#%d", text, ord)] {
-		g := ex.evalClause(c, st, f.oldSt, nil)
+	cs := f.fn.Con.CallSites[fmt.Sprintf("%s#%d", text, ord)]
+	var bind map[string]Value
+	if len(cs) > 0 {
+		bind = map[string]Value{}
+		for i, a := range call.Args {
+			if bt, ok := ex.info().TypeOf(a).(*types.Basic); ok && bt.Kind() != types.UntypedNil {
+				ex.spec++
+				bind[fmt.Sprintf("arg%d", i)] = ex.convertTo(ex.eval(a, st), types.Default(bt), st)
+				ex.spec--
+			}
+		}
+	}
+	for k, c := range cs {
+		g := ex.evalClause(c, st, f.oldSt, bind)
 		ex.check(st, g, "callsite-requires", call, fmt.Sprintf("callsite:%s#%d/requires#%d", text, ord, k))
 	}
 }
